@@ -67,7 +67,17 @@ LiteralShapes ==
      << "ReadKeysAndCert", ZeroPadId(7, 0, 256, 32) >>, << "ReadDestination", ZeroPadId(11, 4, 32, 32) >>, << "ReadKeysAndCert", Id("key", 7, 4) >>,
      << "ReadKeysAndCert", Id("null", 0, 0) >> >>
 LiteralVecs == Cross2(LiteralShapes, Ns, LAMBDA sh, n : [op |-> "Concurrent", fn |-> sh[1], in |-> sh[2], n |-> n, reps |-> Reps, literal |-> TRUE, cls |-> "literal/n" \o ToString(n)])
-Vecs == SignedVecs \o DistinctVecs \o LiteralVecs \o Cross2(Shapes \o ShapesU \o ShapesS, Ns, LAMBDA sh, n : [op |-> "Concurrent", fn |-> sh[1], in |-> sh[2], n |-> n, reps |-> Reps, cls |-> "n" \o ToString(n)] @@ sh[3])
+\* shared values no method of which has run before the goroutines get them (bare parser calls): whatever a FIRST query or serialisation
+\* writes into the value happens while it is shared.  Among them mappings that ReadMapping hands back through its documented recovery
+\* (size field larger than the data, data after the last pair inside the declared size, a wrong delimiter): ordinary values from then on.
+ColdFns == { "ReadKeysAndCert", "ReadDestination", "ReadRouterIdentity", "ReadRouterInfo", "ReadRouterAddress", "ReadMapping", "NewMapping", "ReadLeaseSet2",
+             "ReadMetaLeaseSet", "ReadLeaseSet", "ReadCertificate" }
+ColdShapes == SelectSeq(Shapes \o ShapesU, LAMBDA sh : sh[1] \in ColdFns)
+RecoveredMappings == << << 0, 12, 1, 97, 61, 1, 98, 59 >>, << 0, 8, 1, 97, 61, 1, 98, 59, 7, 7 >>, << 0, 12, 1, 97, 61, 1, 98, 59, 1, 99, 58, 1, 100, 59 >>, << 0, 7, 1, 97, 61, 1, 98, 59, 1 >> >>
+ColdVecs == Cross2(ColdShapes, << 4, 8 >>, LAMBDA sh, n : [op |-> "Concurrent", fn |-> sh[1], in |-> sh[2], n |-> n, reps |-> Reps, bare |-> TRUE, cls |-> "bare/n" \o ToString(n)] @@ sh[3])
+            \o Cross3(<< "ReadMapping", "NewMapping" >>, RecoveredMappings, << 4, 8 >>, LAMBDA fn, w, n :
+                       [op |-> "Concurrent", fn |-> fn, in |-> w, n |-> n, reps |-> Reps, bare |-> TRUE, recovered |-> TRUE, cls |-> "bare-recovered/n" \o ToString(n)])
+Vecs == SignedVecs \o DistinctVecs \o LiteralVecs \o ColdVecs \o Cross2(Shapes \o ShapesU \o ShapesS, Ns, LAMBDA sh, n : [op |-> "Concurrent", fn |-> sh[1], in |-> sh[2], n |-> n, reps |-> Reps, cls |-> "n" \o ToString(n)] @@ sh[3])
 VARIABLE done
 Init == done = FALSE
 Next == ~done /\ ndJsonSerialize(OutFile, Vecs) /\ PrintT(<< "GENERATED", Len(Vecs) >>) /\ done' = TRUE
